@@ -26,7 +26,7 @@ CHECKS = {
  "C17": ("model_checking", "explicit-state BFS with an allocation monitor, per feature configuration",
          "The C01 transition relation plus all observers, executed under a counting global allocator in three builds (no features, alloc, std): zero allocations inside any non-panicking crate call except boxed()/to_vec(); the byte-I/O impls incl. read_exact/write_all likewise; a #![no_std] static library without an allocator is linked against the no-feature build.", "§4 C17"),
  "C18": ("model_checking", "differential transcript of complete case spaces between nightly/default and nightly/unstable builds",
-         "The nightly/default build enumerates histories (BFS) and writes one transcript line per (history, action, fault point) over the C01-C12 alphabets incl. the fault spaces; the nightly/unstable build replays the same histories; transcripts must be identical line by line. stable/default is a toolchain-drift control.", "§4 C18"),
+         "The nightly/default build enumerates histories (BFS) and writes one transcript line per (history, action, fault point) over the C01-C12 alphabets incl. the fault spaces; the nightly/unstable build replays the same histories; transcripts must be identical case by case. The same is done for the other element types: the byte-buffer space through std::io (every layout x I/O alphabet, provided methods, Extend<&u8>, push/pop, hash, each with a follow-up battery), the zero-sized twin (every layout x its operations x every clone/destructor fault point) and zero-sized elements at the 12 extreme capacities of C19 (all sequences of depth 2; depth 3 over the reduced alphabet in thorough). stable/default is a toolchain-drift control.", "§4 C18"),
  "C19": ("model_checking", "exhaustive depth-bounded enumeration of action sequences (no state merging) at extreme capacities with a ZST",
          "12 capacities incl. usize::MAX and neighbours of 2^63/2^32, drop-counting ZST, all sequences of depth 3/4(/5 reduced) after front-positioning prefixes near 0 and near N: no overflow/div-by-zero/bounds panic, len/returns/is_full/live count = model; overflow checks on and off (thorough).", "§4 C19"),
  "C20": ("model_checking", "explicit-state BFS with a relocation monitor",
